@@ -888,3 +888,5 @@ func (c *Chain) Sibling() (*Chain, error) {
 	}
 	return s, nil
 }
+
+func NewDepositContract(sp *refspec.Spec) *DepositContract { return &DepositContract{sp: sp} }
